@@ -637,3 +637,150 @@ Proof.
       - rewrite Hv. apply lp_ok_nil. }
     rewrite view_upd_a. reflexivity.
 Qed.
+
+(** ** client operations *)
+Lemma hist_cli_other t name args :
+  String.eqb name "inv_push" = false -> String.eqb name "ret_push" = false ->
+  String.eqb name "inv_pop" = false -> String.eqb name "ret_pop" = false ->
+  hist (Conc.tag t [EvCli name args]) = [].
+Proof. intros H1 H2 H3 H4. cbn. rewrite H1, H2, H3, H4. reflexivity. Qed.
+
+Definition Qop (k : nat) : bool -> phase -> Prop := fun ok l => ok = true -> l = PIdle (S k).
+
+Lemma safe_emit_fuel t l (Q : bool -> phase -> Prop) :
+  (forall l', Q false l') -> safe t (Emit [EvCli "outoffuel" []] (Ret false)) l Q.
+Proof.
+  intros HQ. cbn [Conc.safe]. intros g a tr Hi Hv. unfold view in Hv.
+  exists (upd_a a t (ph a t) []). split; [|split; [apply frame_upd_a|]].
+  { apply Inv_rephase; [exact Hi| | | |reflexivity].
+    - lia.
+    - apply phase_ok_upd; [lia|]. exact (Inv_phase _ _ _ t Hi).
+    - reflexivity. }
+  apply HQ.
+Qed.
+
+Lemma safe_run_op fuel t k o : safe t (run_op fuel t k o) (PIdle k) (Qop k).
+Proof.
+  destruct o as [v|]; cbn [run_op Conc.safe].
+  - (* push *)
+    intros g a tr Hi Hv. unfold view in Hv.
+    exists (upd_a a t (PPush k v) [EInv t (Push v)]). split; [|split; [apply frame_upd_a|]].
+    { apply (Inv_keep g g a tr t (own a t)); [exact Hi| | | | | |reflexivity].
+      - apply touches_refl.
+      - left. apply own_ok.
+      - rewrite Hv. cbn. lia.
+      - exact I.
+      - rewrite Hv. apply lp_ok_inv. }
+    rewrite view_upd_a. apply Conc.safe_bind.
+    apply (safe_push fuel t k v (fun ok l => safe t (if ok then Emit [EvCli "ret_push" [1]] (Ret true)
+                                                     else Emit [EvCli "outoffuel" []] (Ret false)) l (Qop k))).
+    + cbn [Conc.safe]. clear g a tr Hi Hv. intros g a tr Hi Hv. unfold view in Hv.
+      exists (upd_a a t (PIdle (S k)) [ERes t (RBool true)]). split; [|split; [apply frame_upd_a|]].
+      { apply (Inv_keep g g a tr t (own a t)); [exact Hi| | | | | |reflexivity].
+        - apply touches_refl.
+        - left. apply own_ok.
+        - rewrite Hv. cbn. lia.
+        - exact I.
+        - rewrite Hv. apply lp_ok_res. }
+      rewrite view_upd_a. intros _. reflexivity.
+    + intros l. apply safe_emit_fuel. intros l' H. discriminate.
+  - (* pop *)
+    intros g a tr Hi Hv. unfold view in Hv.
+    exists (upd_a a t (PPop k) [EInv t Pop]). split; [|split; [apply frame_upd_a|]].
+    { apply (Inv_keep g g a tr t (own a t)); [exact Hi| | | | | |reflexivity].
+      - apply touches_refl.
+      - left. apply own_ok.
+      - rewrite Hv. cbn. lia.
+      - exact I.
+      - rewrite Hv. apply lp_ok_inv. }
+    rewrite view_upd_a. apply Conc.safe_bind.
+    eapply Conc.safe_weaken; [|apply safe_pop_loop].
+    intros [| |v] l Hl; cbn in Hl.
+    + apply safe_emit_fuel. intros l' H. discriminate.
+    + subst l. cbn [Conc.safe]. clear g a tr Hi Hv. intros g a tr Hi Hv. unfold view in Hv.
+      exists (upd_a a t (PIdle (S k)) [ERes t (RVal None)]). split; [|split; [apply frame_upd_a|]].
+      { apply (Inv_keep g g a tr t (own a t)); [exact Hi| | | | | |reflexivity].
+        - apply touches_refl.
+        - left. apply own_ok.
+        - rewrite Hv. cbn. lia.
+        - exact I.
+        - rewrite Hv. apply lp_ok_res. }
+      rewrite view_upd_a. intros _. reflexivity.
+    + destruct Hl as [n ->]. cbn [Conc.safe]. clear g a tr Hi Hv. intros g a tr Hi Hv. unfold view in Hv.
+      exists (upd_a a t (PIdle (S k)) [ERes t (RVal (Some v))]). split; [|split; [apply frame_upd_a|]].
+      { apply (Inv_keep g g a tr t (own a t)); [exact Hi| | | | | |reflexivity].
+        - apply touches_refl.
+        - left. apply own_ok.
+        - rewrite Hv. cbn. lia.
+        - exact I.
+        - rewrite Hv. apply lp_ok_res. }
+      rewrite view_upd_a. intros _. reflexivity.
+Qed.
+
+Lemma safe_run_ops fuel t os : forall k, safe t (run_ops fuel t k os) (PIdle k) (@Conc.QTrue phase).
+Proof.
+  induction os as [|o r IH]; intros k; cbn [run_ops]; [exact I|].
+  apply Conc.safe_bind. eapply Conc.safe_weaken; [|apply safe_run_op].
+  intros [|] l Hl; [|exact I]. rewrite (Hl eq_refl). apply IH.
+Qed.
+
+Lemma safe_thread fuel t os : safe t (thread_prog fuel t os) (PIdle 0) (@Conc.QTrue phase).
+Proof.
+  unfold thread_prog. cbn [Conc.safe]. intros g a tr Hi Hv. unfold view in Hv. cbn [a_begin fst snd].
+  exists (upd_a a t (PIdle 0) []). split; [|split; [apply frame_upd_a|]].
+  { apply Inv_rephase; [exact Hi| | | |reflexivity].
+    - rewrite Hv. cbn. lia.
+    - exact I.
+    - now rewrite Hv. }
+  rewrite view_upd_a. apply safe_run_ops.
+Qed.
+
+Lemma nth_thread_progs fuel ths : forall t0 i p,
+  nth_error (thread_progs fuel t0 ths) i = Some p ->
+  exists os, p = thread_prog fuel (t0 + i) os.
+Proof.
+  induction ths as [|os r IH]; intros t0 [|i] p H; cbn in H; try discriminate.
+  - inversion H. exists os. now rewrite Nat.add_0_r.
+  - destruct (IH (S t0) i p H) as (os' & ->). exists os'. f_equal. lia.
+Qed.
+
+Definition aux0 : Aux := mkA [] [] (fun _ => PIdle 0).
+
+Lemma init_ok fuel ths : Conc.cfg_ok view Inv (init_cfg fuel ths).
+Proof.
+  exists aux0. split.
+  - cbn. repeat split; auto.
+    + constructor.
+    + intros n [].
+    + exists (fun _ => SIdle). split; reflexivity.
+  - intros t p Hp. cbn [init_cfg Conc.threads] in Hp.
+    destruct (nth_thread_progs _ _ _ _ _ Hp) as (os & ->). cbn. apply safe_thread.
+Qed.
+
+(** ** the theorem: in every reachable configuration (every schedule, any number of threads, any client
+       program of push / pop operations, any loop fuel) the invoke/response history of the trace is the
+       erasure of a trace annotated with valid linearization points of the sequential LIFO stack *)
+Theorem treiber_lp_valid fuel ths c :
+  Conc.reach (init_cfg fuel ths) c ->
+  exists atr, lp_valid Stack atr /\ erase atr = hist (Conc.trace c).
+Proof.
+  intros Hr. destruct (Conc.reach_Inv (init_ok fuel ths) Hr) as (a & _ & _ & _ & _ & (sts & H & _) & He).
+  exists (atr a). split; [|exact He]. eexists. exact H.
+Qed.
+
+Theorem treiber_linearizable fuel ths c :
+  Conc.reach (init_cfg fuel ths) c -> linearizable Stack (hist (Conc.trace c)).
+Proof.
+  intros Hr. destruct (treiber_lp_valid fuel ths c Hr) as (atr & Hv & He).
+  rewrite <- He. now apply lp_valid_linearizable.
+Qed.
+
+(** a structural by-product of the invariant: at every reachable configuration the m_pNext chain that starts
+    at m_Top is finite, null-terminated and visits pairwise distinct nodes *)
+Theorem treiber_chain_wellformed fuel ths c :
+  Conc.reach (init_cfg fuel ths) c ->
+  exists l, chain (next (Conc.shared c)) (top (Conc.shared c)) l /\ NoDup l.
+Proof.
+  intros Hr. destruct (Conc.reach_Inv (init_ok fuel ths) Hr) as (a & I1 & I2 & _).
+  exists (stk a). auto.
+Qed.
